@@ -71,7 +71,7 @@ func runC15(r *core.Run) {
 	c15Consumed(r)
 	c15PacketSize(r, "R15.6")
 	c15Discard(r, "R15.7")
-	c15BytesFailsOnlyWhenEmpty(r)
+	c15BytesFailsOnlyWhenEmpty(r, "R15.11")
 	c15DataOwnership(r)
 	c15NewPacketGuards(r)
 	c15TypedThroughBytes(r)
@@ -598,7 +598,7 @@ func c15ReadExact(r *core.Run) {
 }
 
 // c15BytesFailsOnlyWhenEmpty: R15.11.
-func c15BytesFailsOnlyWhenEmpty(r *core.Run) {
+func c15BytesFailsOnlyWhenEmpty(r *core.Run, rule string) {
 	p := r.Prog
 	fn := p.Func("tds", "PacketQueue", "Bytes")
 	apc := p.Func("tds", "PacketQueue", "AllPacketsConsumed")
@@ -619,7 +619,7 @@ func c15BytesFailsOnlyWhenEmpty(r *core.Run) {
 			why = "Bytes can fail (" + p.Pos(ret.Pos()) + ") although AllPacketsConsumed() did not answer true: bytes queued behind an empty or exactly exhausted packet become unreadable and the position is stuck in front of them"
 		}
 	}
-	r.Check(why == "" && n > 0, "R15.11", "Bytes: error returns only under AllPacketsConsumed()", fn.Pos(), fmt.Sprintf("%d error return(s), all on the true edge of AllPacketsConsumed()", n), why)
+	r.Check(why == "" && n > 0, rule, "Bytes: error returns only under AllPacketsConsumed()", fn.Pos(), fmt.Sprintf("%d error return(s), all on the true edge of AllPacketsConsumed()", n), why)
 }
 
 // c15DataOwnership: R15.12.
